@@ -19,7 +19,7 @@ theorem WF.adv {st : PState} (h : WF st) : WF (adv st) := h.suf (Suf.adv st)
 
 theorem WF.shape {st : PState} (h : WF st) (hk : nextTok st = some .PackagePath) :
     pathShape (tokAt st).text := by
-  obtain ⟨h1, h2⟩ := toks_of_nextTok hk
+  obtain ⟨h1, h2, _⟩ := toks_of_nextTok hk
   exact h _ (by rw [h1]; simp) (tok?_eq_some.mp h2)
 
 /-! ### extern names, export options -/
@@ -31,19 +31,19 @@ theorem parseExternName_eq_ok {st st' : PState} {n : ExternName} :
   unfold parseExternName
   split
   · rename_i hk
-    simp only [Except.bind_eq_ok, Prod.exists, parseIdent_eq_ok, hk]
+    simp only [Except.bind_eq_ok, Prod.exists, parseIdent_eq_ok]
     constructor
-    · rintro ⟨id, st1, ⟨_, rfl, rfl⟩, h⟩; cases h; simp
-    · rintro (⟨_, rfl, rfl⟩ | ⟨h, _⟩)
-      · exact ⟨_, _, ⟨trivial, rfl, rfl⟩, rfl⟩
-      · simp at h
+    · rintro ⟨id, st1, ⟨h1, rfl, rfl⟩, h⟩; cases h; exact .inl ⟨h1, rfl, rfl⟩
+    · rintro (⟨h1, rfl, rfl⟩ | ⟨h, _⟩)
+      · exact ⟨_, _, ⟨h1, rfl, rfl⟩, rfl⟩
+      · rw [peekTok_of_nextTok h] at hk; cases hk
   · rename_i hk
-    simp only [Except.bind_eq_ok, Prod.exists, parseString_eq_ok, hk]
+    simp only [Except.bind_eq_ok, Prod.exists, parseString_eq_ok]
     constructor
-    · rintro ⟨id, st1, ⟨_, rfl, rfl⟩, h⟩; cases h; simp
-    · rintro (⟨h, _⟩ | ⟨_, rfl, rfl⟩)
-      · simp at h
-      · exact ⟨_, _, ⟨trivial, rfl, rfl⟩, rfl⟩
+    · rintro ⟨id, st1, ⟨h1, rfl, rfl⟩, h⟩; cases h; exact .inr ⟨h1, rfl, rfl⟩
+    · rintro (⟨h, _⟩ | ⟨h1, rfl, rfl⟩)
+      · rw [peekTok_of_nextTok h] at hk; cases hk
+      · exact ⟨_, _, ⟨h1, rfl, rfl⟩, rfl⟩
   · rename_i h1 h2
     simp
     constructor <;> intro h <;> simp_all
@@ -90,7 +90,7 @@ theorem parseExportStatement_sound (hV : SemverAgree) {pf : Nat} {st st' : PStat
   · rename_i ke
     simp only [peekIs_iff] at ke
     simp only [Except.bind_eq_ok, Prod.exists, parseToken_eq_ok] at ho
-    obtain ⟨t, st2', ⟨_, rfl, rfl⟩, ho⟩ := ho
+    obtain ⟨t, st2', ⟨ke, rfl, rfl⟩, ho⟩ := ho
     cases ho
     have l2 := len_of_nextTok ke
     refine ⟨(Suf.adv _).trans ((Suf.adv _).trans (hs.trans (Suf.adv _))), by omega, ?_⟩
@@ -104,7 +104,7 @@ theorem parseExportStatement_sound (hV : SemverAgree) {pf : Nat} {st st' : PStat
     · rename_i _ ka
       simp only [peekIs_iff] at ka
       simp only [Except.bind_eq_ok, Prod.exists, parseToken_eq_ok, parseExternName_eq_ok] at ho
-      obtain ⟨t, st2', ⟨_, rfl, rfl⟩, n, st3', hn, ho⟩ := ho
+      obtain ⟨t, st2', ⟨ka, rfl, rfl⟩, n, st3', hn, ho⟩ := ho
       cases ho
       have l2 := len_of_nextTok ka
       rcases hn with ⟨kn, rfl, rfl⟩ | ⟨kn, rfl, rfl⟩
